@@ -513,6 +513,57 @@ def run(ctx):
              ctx.construct(gt), 'triggered_by is dropped before the '
              'upstream lookup', ctx.loc(gt))
 
+    # the tasks whose data a join sees are those that ROUTED to it: inbound
+    # by the definition is not enough (a conditional transition that was
+    # not taken does not make its source a causal predecessor)
+    gu = prog.func('mistral.workflow.direct_workflow.DirectWorkflowController'
+                   '._get_upstream_task_executions')
+    ucfg = ctx.cfg(gu)
+    JOIN = '%s.get_join()' % gu.params[1]
+    ROUTED = '%s.get_name() in [__t[0] for __t in __e.next_tasks]' \
+        % gu.params[1]
+    n_join_ret = 0
+    for x in ucfg.nodes:
+        if not (x.kind == 'stmt' and isinstance(x.ast, ast.Return) and
+                x.ast.value is not None):
+            continue
+        if not U.guarded(ucfg, x, JOIN, True):
+            continue
+        n_join_ret += 1
+        v = x.ast.value
+        okj = False
+        if isinstance(v, ast.Name):
+            apps = [n for n, c in ucfg.calls(
+                lambda c: U.call_name(c) == 'append' and
+                dotted(c.func.value) == v.id)]
+            inits = [st for st in own_nodes(gu.node)
+                     if isinstance(st, ast.Assign) and
+                     dotted(st.targets[0]) == v.id]
+            okj = bool(apps) and all(U.guard_match(ucfg, n, ROUTED, True)
+                                     for n in apps) and \
+                all(norm(st.value) == '[]' for st in inits)
+        elif isinstance(v, ast.ListComp):
+            okj = any(U.phas(i, ROUTED) for g_ in v.generators
+                      for i in g_.ifs)
+        r6.check(okj, ctx.construct(gu, x.ast),
+                 'the upstream tasks of a join are not restricted to the '
+                 'tasks whose recorded next_tasks contain the join (data of '
+                 'a task that did not route to the join would be merged in)',
+                 ctx.loc(gu, x.ast))
+    if n_join_ret < 1:
+        raise AnalysisError('C05.R6: join branch of '
+                            '_get_upstream_task_executions lost')
+    for n, c in U.calls_in(ucfg, '_get_task_executions'):
+        if U.guarded(ucfg, n, JOIN, False):
+            r6.check(U.kwarg(c, 'processed') is not None and
+                     (not U.guarded(ucfg, n, 'triggered_by', True) or
+                      U.phas(U.kwarg(c, 'id') or ast.Constant(None),
+                             "{'in': triggered_by}")),
+                     ctx.construct(gu, extra='parent of a non-join task'),
+                     'the single parent of a non-join task is not selected '
+                     'among processed tasks / by the recorded trigger ids',
+                     ctx.loc(gu, c))
+
     # ---- R7 merge results are not lost --------------------------------------------------------
     r7 = ctx.rule('R7', 'a merge whose left side may be None does not '
                   'discard its result', 'must-use')
